@@ -61,6 +61,8 @@ err_t bignSign(octet sig[], const bign_params* params, const octet oid_der[],
 	if (!bignIsOperable(params))
 		return ERR_BAD_PARAMS;
 	// проверить oid_der
+	if (oid_len != SIZE_MAX && !memIsValid(oid_der, oid_len))
+		return ERR_BAD_INPUT;
 	if (oid_len == SIZE_MAX || oidFromDER(0, oid_der, oid_len)  == SIZE_MAX)
 		return ERR_BAD_OID;
 	// проверить rng
@@ -173,6 +175,8 @@ err_t bignSign2(octet sig[], const bign_params* params, const octet oid_der[],
 	if (!bignIsOperable(params))
 		return ERR_BAD_PARAMS;
 	// проверить oid_der
+	if (oid_len != SIZE_MAX && !memIsValid(oid_der, oid_len))
+		return ERR_BAD_INPUT;
 	if (oid_len == SIZE_MAX || oidFromDER(0, oid_der, oid_len)  == SIZE_MAX)
 		return ERR_BAD_OID;
 	// проверить t
@@ -303,6 +307,8 @@ err_t bignVerify(const bign_params* params, const octet oid_der[],
 	if (!bignIsOperable(params))
 		return ERR_BAD_PARAMS;
 	// проверить oid_der
+	if (oid_len != SIZE_MAX && !memIsValid(oid_der, oid_len))
+		return ERR_BAD_INPUT;
 	if (oid_len == SIZE_MAX || oidFromDER(0, oid_der, oid_len)  == SIZE_MAX)
 		return ERR_BAD_OID;
 	// создать состояние
